@@ -885,16 +885,23 @@ def ioCb (st : St) (s : PollSlot) : St :=
     else invokeWatch st a EV_FIRE (.io (st.getW a).fd (condOfRevents (slotRevents s)))
   | none => st
 
-/-- The descriptor loop of `evloop_run` (lines 162–184); `nfds` is re-read on every iteration. -/
-def ioLoop (fuel : Nat) (st : St) (idx : Nat) : St :=
+/-- The descriptor loop of `evloop_run` (lines 162–184); `nfds` is re-read on every iteration.  Returns the
+    state and, for every `tickit_evloop_invoke_iowatch` it made, (index, watch, conditions) — read only by the
+    theorems of C18. -/
+def ioLoopT (fuel : Nat) (st : St) (idx : Nat) : St × List (Nat × Option Nat × Nat) :=
   match fuel with
-  | 0 => if st.isOk then { st with status := .outOfFuel } else st
+  | 0 => (if st.isOk then { st with status := .outOfFuel } else st, [])
   | fuel + 1 =>
-    if !st.isOk then st
-    else if idx ≥ st.pfd.length then st
-    else if (st.pfd.getD idx default).fd = -1 then ioLoop fuel st (idx + 1)
-    else if slotRevents (st.pfd.getD idx default) = 0 then ioLoop fuel st (idx + 1)
-    else ioLoop fuel (ioCb st (st.pfd.getD idx default)) (idx + 1)
+    if !st.isOk then (st, [])
+    else if idx ≥ st.pfd.length then (st, [])
+    else if (st.pfd.getD idx default).fd = -1 then ioLoopT fuel st (idx + 1)
+    else if slotRevents (st.pfd.getD idx default) = 0 then ioLoopT fuel st (idx + 1)
+    else
+      ((ioLoopT fuel (ioCb st (st.pfd.getD idx default)) (idx + 1)).1,
+       (idx, (st.pfd.getD idx default).watch, condOfRevents (slotRevents (st.pfd.getD idx default))) ::
+         (ioLoopT fuel (ioCb st (st.pfd.getD idx default)) (idx + 1)).2)
+
+def ioLoop (fuel : Nat) (st : St) (idx : Nat) : St := (ioLoopT fuel st idx).1
 
 /-- `errno` as `evloop_run` looks at it when `ppoll` returned -1: `afterPoll` is the state right after
     the wait, `st` the state after `tickit_evloop_invoke_timers`. -/
